@@ -366,3 +366,149 @@ def check_C12(rep, scr, tier, seed):
     return rep.finish('every modelled call of the C01/C07 generators plus sort/time/format/wide-format/tmpfile calls, each bracketed by a byte snapshot of all library statics; non-trivial = distinct (function, return, statics written)',
                       'make -C /verif/coq Properties_C12.vo + harness/check.py C12')
 REGISTRY['C12'] = check_C12
+
+# ------------------------------------------------------------------ C09: %n is never executed
+import prescan_tr
+MODS = set('-+ #\'I*$.hlLqjzt0123456789')
+def py_convs(fmt, scanf):
+    """mirror of FmtScan.convs (used only to phrase expectations; the decision uses the extracted model)"""
+    out = []; s = 'lit'; supp = False; first = False
+    for ch in fmt:
+        if s == 'lit':
+            if ch == '%': s = 'dir'; supp = False
+        elif s == 'dir':
+            if ch in MODS or (scanf and ch == 'm'):
+                if scanf and ch == '*': supp = True
+            elif scanf and ch == '[': out.append((ch, supp)); s = 'set'; first = True
+            else: out.append((ch, supp)); s = 'lit'
+        else:
+            if ch == ']' and not first: s = 'lit'
+            elif ch == '^' and first: first = True
+            else: first = False
+    return out
+def py_has_n(fmt, scanf): return any(c == 'n' and not sp for c, sp in py_convs(fmt, scanf))
+
+def gen_c09_formats(tier, seed):
+    import random
+    rng = random.Random(seed)
+    ndirs = ['%n', '%ln', '%hhn', '%hn', '%lln', '%5n', '%-n', '%0n', '%jn', '%zn', '%tn', '%.3n', '%#n', '%+n', '% n', '%-5ln', '%05hhn']
+    plain = ['%d', '%5d', '%-3x', '%c', '%u', '%%', '%ld']
+    lits = ['', 'ab', 'x ']
+    fm = set()
+    for nd in ndirs:
+        for l in lits:
+            fm.add(l + nd); fm.add(l + nd + 'z'); fm.add(l + '%%' + nd); fm.add(l + '%%%%' + nd); fm.add('%%n' + l + nd)
+            for p in plain: fm.add(l + p + nd); fm.add(p + l + nd)
+    fm |= {'%%n', 'ab%%n', '%%%n', '%%%%n', '%d%%n', 'n%', 'plain', '%d %d', '%%', '100%% n', 'a%%nb%nc', '%nn', 'n%n', '%%n%%n%n'}
+    if tier == 'thorough':
+        for _ in range(2000):
+            k = rng.randrange(1, 4)
+            fm.add(''.join(rng.choice(lits + plain + ndirs + ['%%']) for _ in range(k)))
+    return sorted(fm)
+
+def check_C09(rep, scr, tier, seed):
+    import subprocess
+    impl = vlib.build_impl(scr, 'O1')
+    c = vlib.consts(scr, impl); vlib.write_gen_consts(c)
+    entries, eng_ok = prescan_tr.analyse(vlib.REPO, impl + '/inc')
+    prescan_tr.write_gen(entries, eng_ok, vlib.COQ)
+    vlib.build_model()
+    pr = proofs(rep, scr, 'C09')
+    rep.extra['entries'] = ['%(name)s: idiom=%(idiom)s formatter=%(formatter)s' % e for e in entries]
+    formats = gen_c09_formats(tier, seed)
+    cases = []; info = {}
+    n = 0
+    for e in entries:
+        name, wide, scanf = e['name'], e['wide'], e['scanf']
+        if name in ('wprintf_s', 'vwprintf_s', 'wscanf_s', 'vwscanf_s'): continue   # wide stdio on the shared stdout/stdin: covered by their f* twins (same code shape, see entries)
+        sbuf = name in ('sprintf_s', 'vsprintf_s', 'snprintf_s', 'vsnprintf_s', 'swprintf_s', 'vswprintf_s', 'snwprintf_s', 'vsnwprintf_s')
+        specials = [('%n', 'pfx', 64), ('%ln', 'pfx', 64)]      # the byte in front of the format is '%'
+        if sbuf: specials += [('%.0ls%.0ls%n' if wide else '%.0s%.0s%n', '', 8), ('%.0ls%.0ls%ln' if wide else '%.0s%.0s%ln', '', 8)]   # %n beyond the first dmax characters
+        for fmt, special, dmx in [(f, '', 64) for f in formats] + specials:
+            if scanf and any(ch in 'dxcu' for ch, _ in py_convs(fmt, True)): continue
+            n += 1; cid = 'f%d' % n
+            w_ = 4 if wide else 1
+            pre = (b'%' + b'\0' * (w_ - 1)) if special == 'pfx' else b''
+            enc = (lambda s: pre + wenc(s)) if wide else (lambda s: pre + s.encode() + b'\0')
+            sent = b'\xee' * 24
+            if not scanf:
+                if name in ('sprintf_s', 'vsprintf_s', 'snprintf_s', 'vsnprintf_s', 'swprintf_s', 'vswprintf_s', 'snwprintf_s', 'vsnwprintf_s'):
+                    w = 4 if wide else 1
+                    blocks = [('R', b'\x55' * (dmx * w)), ('R', enc(fmt)), ('R', sent), ('R', b'\0\0\0\0')]
+                    args = [(0, 0), dmx, UNK, (1, len(pre)), 'V', (2, 0), (2, 8), (2, 16)]
+                    if dmx == 8: args = [(0, 0), dmx, UNK, (1, len(pre)), 'V', (3, 0), (3, 0), (2, 16)]   # two empty strings, then the n target
+                else:
+                    blocks = [('R', enc(fmt)), ('R', sent)]
+                    args = [(0, len(pre)), 'V', (1, 0), (1, 8), (1, 16)]
+            else:
+                inp = fmt.replace('%%', '\x01'); 
+                import re as _re
+                inp = _re.sub(r'%[^a-zA-Z%]*[a-zA-Z]+?', '', inp) if False else inp
+                # input: the literal text of the format with %% -> % and the n-directives removed
+                lit = ''; i = 0
+                while i < len(fmt):
+                    if fmt[i] == '%':
+                        j = i + 1
+                        while j < len(fmt) and (fmt[j] in MODS or fmt[j] == 'm'): j += 1
+                        if j < len(fmt) and fmt[j] == '%' and j == i + 1: lit += '%'
+                        i = j + 1
+                    else: lit += fmt[i]; i += 1
+                blocks = [('R', (wenc(lit) if wide else lit.encode() + b'\0')), ('R', enc(fmt)), ('R', sent)]
+                args = [(0, 0), (1, len(pre)), 'V', (2, 0), (2, 8), (2, 16)]
+            cases.append(vlib.Case(cid, name, blocks, args, {'cls': 'fmt', 'fmt': fmt, 'entry': e, 'sent': next(i for i, (_, b) in enumerate(blocks) if b == sent)}))
+            info[cid] = (e, fmt)
+    cf = scr.dir + '/cases_c09.txt'
+    with open(cf, 'w') as f:
+        for x in cases: f.write(x.line() + '\n')
+    oi = vlib.run_impl(impl, cf, cases, locale='C.UTF-8')
+    # model verdicts
+    mf = scr.dir + '/fmt.txt'
+    with open(mf, 'w') as f:
+        for x in cases:
+            fmt = x.meta['fmt']; f.write('%s %d %s\n' % (x.id, x.meta['entry']['scanf'], ','.join(str(ord(ch)) for ch in fmt) if fmt else '-'))
+    p = subprocess.run([vlib.VERIF + '/build/model/fmt_model'], stdin=open(mf), capture_output=True, text=True)
+    mv = {}
+    for l in p.stdout.split('\n'):
+        if l.strip():
+            t = l.split(); mv[t[0]] = dict(kv.split('=') for kv in t[1:])
+    for x in cases:
+        o = oi.get(x.id); m = mv.get(x.id); e = x.meta['entry']; fmt = x.meta['fmt']
+        rep.evals += 1; rep.count('%s/%s' % (e['name'], 'n' if m and m['has_n'] == '1' else 'plain'))
+        if o is None or m is None:
+            rep.violation('no outcome', {'key': 'nooutcome', 'no_failing_input': True, 'case': x.to_json()}); continue
+        sent_after = o.blocks[x.meta['sent']] if o.fault == '-' and len(o.blocks) > x.meta['sent'] else None
+        stored = sent_after is not None and sent_after != b'\xee' * 24
+        rejected = (o.ret or '').startswith('-') and len(o.handlers) >= 1
+        rep.nontrivial.add((e['name'], m['libc'], m['engine'], stored, rejected))
+        if len(rep.samples) < 8 and rep.evals % 1499 == 5: rep.samples.append({'entry': e['name'], 'format': fmt, 'impl': o.raw[:160], 'model': m})
+        libc = e['formatter'] == 'libc'
+        fails = []
+        if o.fault != '-': fails.append(('fault', 'call faulted at %s' % o.fault))
+        if stored: fails.append(('n-executed', 'format %r: a %%n conversion stored through its argument (sentinel %s)' % (fmt, sent_after.hex())))
+        elif m['has_n'] == '1' and not rejected: fails.append(('n-not-rejected', 'format %r contains an n conversion but the call returned %s with handlers %s' % (fmt, o.ret, o.handlers)))
+        for kind, text in fails:
+            kid = None
+            for k in rep.known:
+                if k.get('predicate') == 'kf_prescan_miss' and libc and m['libc'] == 'with-n' and kind in ('n-executed', 'n-not-rejected'): kid = k['id']
+            if kid: rep.known_hits[kid] = rep.known_hits.get(kid, 0) + 1
+            else:
+                rep.violation('%s: %s' % (e['name'], text), {'key': (e['name'], kind), 'property': 'C09', 'function': e['name'], 'format': fmt, 'failure': kind,
+                              'case': x.to_json(), 'case_line': x.line(), 'impl_outcome': o.raw, 'model': m})
+        if not fails:
+            # correspondence: the pre-scan verdict, and (engine entries) the engine's error
+            pre_rej = [tuple(h) for h in o.handlers] == [('S', '22')] and (o.ret in ('-22', '-1'))
+            if libc:
+                if (m['prescan'] == 'reject') != pre_rej and not (m['prescan'] == 'accept' and rejected and m['has_n'] == '0'):
+                    rep.mismatches.append((x, o, vlib.Outcome('%s ret=model:libc-%s/engine-%s/prescan-%s' % (x.id, m['libc'], m['engine'], m['prescan'])), 'O1'))
+            else:
+                model_rej = m['prescan'] == 'reject' or m['engine'] == 'error'
+                if model_rej != ((o.ret or '').startswith('-')):
+                    rep.mismatches.append((x, o, vlib.Outcome('%s ret=model:libc-%s/engine-%s/prescan-%s' % (x.id, m['libc'], m['engine'], m['prescan'])), 'O1'))
+    report_proofs(rep, pr, 'C09')
+    report_mismatches(rep, 'T1 (formats)')
+    rep.trusted = TRUSTED_COMMON + ['translator prescan (harness/prescan_tr.py): regular expressions over the preprocessed entry points -> Gen/Prescan.v',
+                                    'libc (vswprintf, v*scanf, vprintf) as the formatter behind 21 entry points: its directive grammar is modelled (FmtScan.convs), not verified',
+                                    'wprintf_s/vwprintf_s/wscanf_s/vwscanf_s are analysed by the translator but not executed (shared wide stdio); their f* twins are']
+    return rep.finish('formats from the directive grammar (every length modifier/flag/width with conversion n, escaped percent signs, second occurrences) x 24 executed entry points, sentinel words as the would-be %n targets; non-trivial = distinct (entry, model verdict, stored?, rejected?)',
+                      'make -C /verif/coq Properties_C09.vo + harness/check.py C09')
+REGISTRY['C09'] = check_C09
